@@ -21,6 +21,9 @@ pub struct RunOpts {
     pub log_net: bool,
     pub keep_payloads: bool,
     pub sample_stats: bool,
+    /// re-seed the rand shim with the same value before every session is built: every session of the case draws
+    /// the same magic number and the same handshake nonces (C17: coinciding random numbers)
+    pub same_random_stream: bool,
 }
 
 #[derive(Clone, Debug)]
@@ -652,6 +655,9 @@ pub fn run_typed<I: HInp, P: InputPredictor<I> + 'static>(sc: &Scenario, opts: &
     // build sessions
     let mut peers: Vec<PeerRt<I, P>> = Vec::new();
     for p in 0..np {
+        if opts.same_random_stream {
+            verif_hooks::rand::seed(sc.seed ^ opts.rand_xor);
+        }
         let built = catch_unwind(AssertUnwindSafe(|| build_p2p::<I, P>(sc, p, &net)));
         let sess = match built {
             Ok(Ok(s)) => Some(s),
@@ -703,6 +709,9 @@ pub fn run_typed<I: HInp, P: InputPredictor<I> + 'static>(sc: &Scenario, opts: &
     }
     let mut specs: Vec<SpecRt<I, P>> = Vec::new();
     for (i, s) in sc.specs.iter().enumerate() {
+        if opts.same_random_stream {
+            verif_hooks::rand::seed(sc.seed ^ opts.rand_xor);
+        }
         let sess = match catch_unwind(AssertUnwindSafe(|| build_spec::<I, P>(sc, i, &net))) {
             Ok(Ok(s)) => Some(s),
             Ok(Err(e)) => {
@@ -721,6 +730,12 @@ pub fn run_typed<I: HInp, P: InputPredictor<I> + 'static>(sc: &Scenario, opts: &
         specs.push(SpecRt { sess, game: Game::new(nplayers, 0, false), out: so, paused_until: 0, spec: s.clone() });
     }
 
+    if opts.same_random_stream {
+        // the numbers drawn while the sessions were built (magic numbers, first nonces) coincide across sessions;
+        // from here on the stream is fresh, so that no session is handed a number it has used before (a generator
+        // repeating itself within one session is not what this replica is about)
+        verif_hooks::rand::seed(sc.seed ^ opts.rand_xor ^ 0x5eed_f00d_0bad_cafe);
+    }
     let mut tm = TruthModel {
         next: vec![0; nplayers],
         last: vec![0; nplayers],
@@ -789,6 +804,7 @@ pub fn run_typed<I: HInp, P: InputPredictor<I> + 'static>(sc: &Scenario, opts: &
                 }
                 Op::LinkDown { from, to, .. } => net.borrow_mut().kill_link(*from, *to),
                 Op::Outage { from, to, len_ms, .. } => net.borrow_mut().outage(*from, *to, *len_ms as u64),
+                Op::DropNext { from, to, class, .. } => net.borrow_mut().drop_next(*from, *to, *class as usize),
                 Op::Slow { from, to, len_ms, extra_ms, .. } => net.borrow_mut().slow(*from, *to, *len_ms as u64, *extra_ms as u64),
                 Op::Restart { peer, .. } => {
                     let p = *peer as usize;
